@@ -110,10 +110,10 @@ def pfxToWl := "cali-tw-"
 
 /-- `buildSingleDispatchChainsVMAP` -/
 def buildVmap (chainName : String) (d : IfDir) (endRules : List Rule) : Chain :=
-  let m : Clause := match d with
+  let m : Action := match d with
     | .inp => .vmap .src chainFromWl
     | .out => .vmap .dst chainToWl
-  { name := chainName, rules := ({ clauses := [m] } : Rule) :: endRules }
+  { name := chainName, rules := ({ action := m } : Rule) :: endRules }
 
 /-- `buildSingleDispatchChains` -/
 def buildSingle (dp : Dataplane) (chainName : String) (t : Tree) (endpointPfx : String) (d : IfDir)
@@ -157,6 +157,10 @@ inductive Directions where
   | both | from | to
   deriving DecidableEq, Repr
 
+def skipWorkloadRule (dp : Dataplane) (p : Bytes) : Rule :=
+  { clauses := [.outIface (p ++ [wildcardByte dp])], action := .ret,
+    comments := ["Skip egress WHEP policy for traffic to local workload"] }
+
 /-- `hostDispatchChains` -/
 def hostDispatchChains (dp : Dataplane) (names : List Bytes) (defaultIface : Bytes)
     (wlPrefixes : List Bytes) (dirs : Directions) (applyOnForward : Bool) : Option (List Chain) :=
@@ -166,8 +170,7 @@ def hostDispatchChains (dp : Dataplane) (names : List Bytes) (defaultIface : Byt
   let fromEnd := gotoDef "cali-fh-"
   let fromEndFwd := gotoDef "cali-fhfw-"
   let skip : List Rule := if hasDef ∧ ¬ applyOnForward then
-      wlPrefixes.map fun p => { clauses := [.outIface (p ++ [wildcardByte dp])], action := .ret,
-                                comments := ["Skip egress WHEP policy for traffic to local workload"] }
+      wlPrefixes.map (skipWorkloadRule dp)
     else []
   let toEnd := skip ++ gotoDef "cali-th-"
   let toEndFwd := gotoDef "cali-thfw-"
@@ -192,6 +195,13 @@ def vmapEnv (names : List Bytes) (mapName : String) (key : Bytes) : Option Actio
   (tbl.find? fun kv => kv.1 == key).map fun kv => .goto kv.2
 
 def mkEnv (dp : Dataplane) (names : List Bytes) : Env := { dp := dp, vmap := vmapEnv names }
+
+/-- Decidable side condition of the dispatch theorems: the rendered chain names are pairwise
+distinct and none of the external targets (endpoint chains) is the name of a dispatch chain.
+(Evaluated by the driver on every generated case and compared with the same check on the real
+chains.) -/
+def chainNamesOK (chains : List Chain) (ext : List String) : Bool :=
+  decide ((chains.map (·.name)).Nodup) && ext.all (fun t => (lookupChain chains t).isNone)
 
 def showResult : Result → String
   | .verdict .accept _ => "accept"
